@@ -319,7 +319,9 @@ theorem clearArch_post {c : CW} (hi : Inv c) (hb : Bounds c) (i : Nat) :
       rw [hsame.buffers, hsame.marked]
       intro h hm
       exact ⟨hkn _ (hi.markedKnown h hm).1, (hi.markedKnown h hm).2⟩
-    markedRange := by show ∀ h ∈ (w.clearArch info i).1.marked, HRange h; rw [hsame.marked]; exact hi.markedRange
+    markedRange := by
+      show ∀ h ∈ (w.clearArch info i).1.marked, HRange (w.clearArch info i).1.worldId h
+      rw [hsame.marked, hsame.worldId]; exact hi.markedRange
     markedSorted := by
       show (w.clearArch info i).1.marked.Pairwise _; rw [hsame.marked]; exact hi.markedSorted }
 
